@@ -766,60 +766,16 @@ def _status(ctx, fi):
     return st[fi.qualname]
 
 
-def _func_at(ctx, where):
-    try:
-        rel, line = where.rsplit(":", 1)
-        line = int(line)
-        m = ctx.p.module(rel)
-    except Exception:
-        return None
-    best = None
-    for f in ctx.p.functions.values():
-        if f.module is m and not isinstance(f.node, ast.Lambda) and f.node.lineno <= line <= (f.node.end_lineno or f.node.lineno):
-            if best is None or f.node.lineno >= best.node.lineno:
-                best = f
-    return best
+def _c03_resolver(ctx, fi):
+    refs = _ref_functions(ctx)
+    if fi.qualname in refs:
+        return _ref(), refs[fi.qualname][1], INTS
+    return None
 
 
 def guarded(fn):
-    """The older rules of this property read particular spellings.  When one of them fails on a function whose
-    canonical form EQUALS the reviewed reference transcription, the spelling changed, not the behaviour: the
-    failure is dropped.  When the function is organised differently from the reference, the failure is reported as
-    undecided.  Only when the canonical form differs from the reference in a component does it stand."""
-    def run(ctx):
-        orig_bad = ctx.bad
-        orig_check = ctx.check
-
-        def bad(key, where, msg, sample=None):
-            fi = _func_at(ctx, where)
-            st = _status(ctx, fi)[0] if fi is not None else "none"
-            if st == "same":
-                ctx.ok("spelling-only:%s" % key, nontrivial=False)
-            elif st == "unrecognised":
-                ctx.undecided(key, where, msg)
-            else:
-                orig_bad(key, where, msg, sample)
-
-        def check(cond, key, where, msg, what=None, sample=None):
-            if cond:
-                ctx.ok(what or key, sample)
-                return True
-            bad(key, where, msg, sample)
-            return False
-        ctx.bad, ctx.check = bad, check
-        try:
-            fn(ctx)
-        except AnalysisError as e:
-            # an anchor of the old rule is gone: if every reference still matches this is a spelling matter
-            del ctx.bad, ctx.check
-            raise Undecided("old-style rule could not read the code (%s)" % e)
-        finally:
-            if "bad" in ctx.__dict__:
-                del ctx.bad
-            if "check" in ctx.__dict__:
-                del ctx.check
-    run.__name__ = fn.__name__
-    return run
+    from sa.refguard import guarded as g
+    return g(fn, _c03_resolver)
 
 
 # ------------------------------------------------------------------ C03.15
